@@ -377,7 +377,8 @@ func (r *reader) _readEvent(canary byte) (m Message, err error) {
 			m = mm
 
 		default:
-			panic(fmt.Sprintf("must not happen: invalid canary % X", canary))
+			// a data byte without running status or a status byte that is not allowed in SMF files
+			return m, fmt.Errorf("invalid SMF data: unexpected byte % X where a status byte was expected", canary)
 		}
 
 		// on a voice/channel category message with status either given or cached (running status)
